@@ -170,9 +170,24 @@ func (w *World) NewTensor(name string, dims []sym.Poly, elem sym.Expr, rng Ival,
 	ds.Len = len(dims)
 	interp.Store(p.C.Fields[w.A.FDims], ds)
 	interp.Store(p.C.Fields[w.A.FData], interp.OpaqueV{Why: "tensor data of " + name})
-	if len(dims) == 0 {
-		// the data of a scalar tensor is its one float64: code may legitimately unbox it
-		interp.Store(p.C.Fields[w.A.FData], interp.IfaceV{T: types.Typ[types.Float64], V: interp.FloatV{E: elem}})
+	allOne := true
+	for _, d := range dims {
+		if c, ok := d.Const(); !ok || c != 1 {
+			allOne = false
+		}
+	}
+	if allOne {
+		// a single-element tensor's data is fully known: its one float64 (boxed in one singleton []any per
+		// dimension); code may legitimately unbox it
+		m := map[string]sym.Poly{}
+		for i := range dims {
+			m[IxName(i)] = sym.PInt(0)
+		}
+		var v interp.Value = interp.IfaceV{T: types.Typ[types.Float64], V: interp.FloatV{E: elem.SubstIdx(m)}}
+		for range dims {
+			v = interp.IfaceV{T: types.NewSlice(w.A.AnyT), V: w.M.SliceOf(w.A.AnyT, []interp.Value{v}, "data:"+name)}
+		}
+		interp.Store(p.C.Fields[w.A.FData], v)
 	}
 	if gctx == nil {
 		gctx = interp.NilV{}
